@@ -10,7 +10,7 @@ run_suite() { (cd $WT && PYTHONPATH=$WT timeout 900 /venv/bin/python -m pytest -
 run_suite > /tmp/confirm_base.txt
 echo "baseline: $(grep -c ^PASSED /tmp/confirm_base.txt) passed $(grep -c ^FAILED /tmp/confirm_base.txt) failed"
 for id in "$@"; do for x in A B; do
-  src=${SRC:-/tmp/seed_}$id/$x; y=$x; [ -n "${ROUND2:-}" ] && { [ $x = A ] && y=C || y=D; }; [ -n "${ROUND3:-}" ] && { [ $x = A ] && y=E || y=F; }; [ -n "${ROUND4:-}" ] && { [ $x = A ] && y=G || y=H; }; [ -n "${ROUND5:-}" ] && { [ $x = A ] && y=I || y=J; }; [ -n "${ROUND6:-}" ] && { [ $x = A ] && y=K || y=L; }; [ -n "${ROUND7:-}" ] && { [ $x = A ] && y=M || y=N; }; [ -n "${ROUND8:-}" ] && { [ $x = A ] && y=O || y=P; }; [ -n "${ROUND9:-}" ] && { [ $x = A ] && y=Q || y=R; }; [ -n "${ROUND10:-}" ] && { [ $x = A ] && y=S || y=T; }; [ -n "${ROUND11:-}" ] && { [ $x = A ] && y=U || y=V; }; [ -n "${ROUND12:-}" ] && { [ $x = A ] && y=W || y=X; }; [ -n "${ROUND13:-}" ] && { [ $x = A ] && y=Y || y=Z; }; [ -f $src/patch.diff ] || { echo "$id-$x: no patch"; continue; }
+  src=${SRC:-/tmp/seed_}$id/$x; y=$x; [ -n "${ROUND2:-}" ] && { [ $x = A ] && y=C || y=D; }; [ -n "${ROUND3:-}" ] && { [ $x = A ] && y=E || y=F; }; [ -n "${ROUND4:-}" ] && { [ $x = A ] && y=G || y=H; }; [ -n "${ROUND5:-}" ] && { [ $x = A ] && y=I || y=J; }; [ -n "${ROUND6:-}" ] && { [ $x = A ] && y=K || y=L; }; [ -n "${ROUND7:-}" ] && { [ $x = A ] && y=M || y=N; }; [ -n "${ROUND8:-}" ] && { [ $x = A ] && y=O || y=P; }; [ -n "${ROUND9:-}" ] && { [ $x = A ] && y=Q || y=R; }; [ -n "${ROUND10:-}" ] && { [ $x = A ] && y=S || y=T; }; [ -n "${ROUND11:-}" ] && { [ $x = A ] && y=U || y=V; }; [ -n "${ROUND12:-}" ] && { [ $x = A ] && y=W || y=X; }; [ -n "${ROUND13:-}" ] && { [ $x = A ] && y=Y || y=Z; }; [ -n "${ROUND14:-}" ] && { [ $x = A ] && y=AA || y=AB; }; [ -f $src/patch.diff ] || { echo "$id-$x: no patch"; continue; }
   git -C $WT checkout -q -- . ; 
   if ! git -C $WT apply $src/patch.diff 2>/tmp/confirm_err.txt; then echo "$id-$x: PATCH DOES NOT APPLY: $(head -2 /tmp/confirm_err.txt)"; continue; fi
   run_suite > /tmp/confirm_seed.txt
